@@ -159,12 +159,93 @@ def k1_k2(rep: Report) -> None:
         rep.candidate(key, f"positions not normalised for {model}", model, replay)
 
 
+def k3_set_line(rep: Report) -> None:
+    """nodes.Context.set_line: every explicitly given component (column, end_line, end_column -- any
+    integer incl. 0, the column of a construct that starts a line) is stored; an omitted one keeps what
+    the target node supplied (or the default).  Both parsers position nodes through it or by direct
+    assignment, so a component it drops makes their diagnostics differ."""
+    K = Kernel("mypy.nodes", ["Context.set_line"], closure=False)
+    rep.kernels_from(K)
+    fn = K["Context.set_line"]
+    ctx = Ctx()
+    n = {"runs": 0, "explicit": 0}
+
+    class Node:
+        def __init__(self) -> None:
+            self.line: Any = -1
+            self.column: Any = -1
+            self.end_line: Any = None
+            self.end_column: Any = None
+
+    def same(c: Ctx, a: Any, b: Any, label: str) -> None:
+        if a is None or b is None:
+            c.check(a is None and b is None, label)
+        else:
+            c.check(symx.to_z3int(a) == symx.to_z3int(b), label)
+
+    def body(c: Ctx) -> None:
+        node = Node()
+        if bool(c.bool("target_is_node")):
+            t: Any = Node()
+            t.line = c.int("t_line", 1)
+            t.column = c.int("t_column", -1)
+            t.end_line = opt_int(c, "t_end_line", 1)
+            t.end_column = opt_int(c, "t_end_column", 0)
+            base = (t.line, t.column, t.end_line, t.end_column)
+        else:
+            t = c.int("line", 1)
+            base = (t, -1, None, None)
+        column = opt_int(c, "column", 0)
+        end_line = opt_int(c, "end_line", 1)
+        end_column = opt_int(c, "end_column", 0)
+        fn(node, t, column, end_line, end_column)
+        n["runs"] += 1
+        n["explicit"] += 1 if column is not None else 0
+        same(c, node.line, base[0], "line taken from the target")
+        same(c, node.column, column if column is not None else base[1], "an explicit column (0 included) is stored, an omitted one keeps the target's")
+        same(c, node.end_line, end_line if end_line is not None else base[2], "an explicit end line is stored, an omitted one keeps the target's")
+        same(c, node.end_column, end_column if end_column is not None else base[3], "an explicit end column (0 included) is stored, an omitted one keeps the target's")
+
+    ctx.explore(body)
+    rep.add_ctx("K3 Context.set_line stores every explicit position component", ctx, **n)
+    rep.twin("K3 reached with explicit components", n["explicit"] > 0)
+    rep.bounds.append("K3: target an int line or a node with symbolic positions; column / end_column None or any int >= 0, end_line None or any int >= 1")
+    seen: dict = {}
+    for x in ctx.cex:
+        seen.setdefault(x.label, x.model)
+    for label, model in seen.items():
+        rep.sample({"kernel": "Context.set_line", "class": label, "model": model})
+
+        def replay(d: str, model: dict = model) -> tuple[bool, str]:
+            from mypy.nodes import Context
+
+            def g(nm: str) -> Any:
+                return None if model.get(nm + "_is_none") else model.get(nm)
+
+            node = Context()
+            if model.get("target_is_node"):
+                t: Any = Context(model.get("t_line", 1), model.get("t_column", -1), g("t_end_line"), g("t_end_column"))
+                base = (t.line, t.column, t.end_line, t.end_column)
+            else:
+                t = model.get("line", 1)
+                base = (t, -1, None, None)
+            node.set_line(t, g("column"), g("end_line"), g("end_column"))
+            want = (base[0], g("column") if g("column") is not None else base[1], g("end_line") if g("end_line") is not None else base[2], g("end_column") if g("end_column") is not None else base[3])
+            got = (node.line, node.column, node.end_line, node.end_column)
+            with open(os.path.join(d, "replay.txt"), "w") as f:
+                f.write(f"model {model}\ngot {got}\nwant {want}\n")
+            return got != want, f"unmodified Context.set_line: got {got}, expected {want}"
+
+        rep.candidate("set_line: " + label, f"{label}: {model}", model, replay)
+
+
 def main(args: Any) -> int:
     rep = Report(PID, args.tier, "symbolic execution (symx/z3) of the real Errors.report clamps and the location-prefix rendering; all four position components symbolic incl. None")
     rep.bounds += ["line >= 1, column/end_line/end_column each None or an int >= -1 (unbounded above); one diagnostic; show_column_numbers/show_error_end symbolic; pretty off (K3 covers the marker when present)"]
     rep.assumptions += ["stub Errors self (no scope, no watchers); ErrorInfo is the real class"]
     rep.outside += ["native vs default parser equivalence beyond the generated programs of K6 and the option hand-over in parse_all (the property quantifies over every source file)", "line exists in the file / column within the line (needs the parser + checker pipeline on source text)"]
     k1_k2(rep)
+    k3_set_line(rep)
     # the one hinge of "native parser = default parser" that is mypy's own Python code: batch parsing must
     # hand each file's inline configuration to the deserialiser (kernel shared with C17/K5)
     from checks.C17 import k5_inline_batch
